@@ -22,7 +22,7 @@ from harness import pyast_wire as W
 
 META = {
     "id": "C03",
-    "technique": "Coq proof (soundness of a line-by-line model of _eval_const w.r.t. the reference Python semantics Lang/PySem.v by induction over expressions; closedness of name-free folds; a model of the constant environment with shared list objects across if / while / for, its staleness refuted by computed witnesses, and a simulation theorem - residual program with baked-in constants = source program on every control-flow path - inside a freshness guard, by induction over nested statement blocks; a second simulation for the module-level split between static global initialisers, which run before setup(), and run-time assignments: hoisting is invisible because only closed constant right-hand sides are hoisted, refuted for the variant without the name-free test) + extracted-model correspondence with the real _eval_const/_expr_has_name/_to_c_expr/parse() + CPython and compiled-firmware oracles",
+    "technique": "Coq proof (soundness of a line-by-line model of _eval_const w.r.t. the reference Python semantics Lang/PySem.v by induction over expressions; closedness of name-free folds; a model of the constant environment with shared list objects across if / while / for, its staleness refuted by computed witnesses, and a simulation theorem - residual program with baked-in constants = source program on every control-flow path - inside a freshness guard, by induction over nested statement blocks; a second simulation for the module-level split between static global initialisers, which run before setup(), and run-time assignments: hoisting is invisible because only closed constant right-hand sides are hoisted, refuted for the variant without the name-free test; a wider flow guard: the transpiler model run in lockstep with a flow-sensitive ghost environment, simulation theorem for every program whose fold sites bake in exactly what the ghost justifies - sibling branches of if / elif / else start from the snapshot, never from an earlier sibling; function definitions: body parsed at the def with the formal arguments unknown, run at a later call, theorem for every argument value, def-time staleness refuted) + extracted-model correspondence with the real _eval_const/_expr_has_name/_to_c_expr/parse() + CPython and compiled-firmware oracles",
     "level_text": "Theorems C03_* (coq/Props/C03.v) are proved for all expressions / environments about Gallina models of _eval_const, _expr_has_name, _literal_length, the folding call sites and the flow-insensitive constant environment (len(name), flash_pattern(name), lcd.glyph bitmaps; append / remove bookkeeping; dict copies sharing list objects) (operator and cast tables regenerated from parser.py on every run); soundness holds inside an explicit guard and is refuted outside it by computed witnesses that are replayed on the real transpiler (listed findings); the models are run against the real functions on generated expressions, environments and programs, and the property itself (folded value = CPython value; firmware observations = CPython observations) is evaluated on the real artefacts for every generated case inside the guard.",
     "level_note": "Trusted: Coq kernel, the reference semantics Lang/PySem.v (validated against CPython by harness/pysem_check.py), translator harness/gen/safecasts.py, extraction, OCaml driver, the mock Arduino core + g++ as 'device', CPython 3.12 as 'what Python means'. The theorems are about the models; the correspondence bounds their distance from parser.py. Floats are exact rationals in the model: value comparisons are made only where every intermediate float is a binary64 value (measured per case).",
     "design_ref": "DESIGN.md section 4 C03",
@@ -364,7 +364,8 @@ def cmp_site(mo, ro, conv, exact):
 # ------------------------------------------------------------------ layer B: programs
 INT_N, STR_N, LIST_N, RT_N = ["va", "vb", "vc", "vd"], ["vs", "vt", "vu"], ["vp", "vq"], ["vm", "vr"]
 LOOPV = ["vi", "vj", "vk"]
-ALLV = INT_N + STR_N + LIST_N + RT_N + LOOPV
+LOCAL_N = ["vx", "vy"]                 # locals of function bodies
+ALLV = INT_N + STR_N + LIST_N + RT_N + LOOPV + LOCAL_N
 RT_PINS = {17: 5, 18: 1, 19: 0, 20: 2}
 STRS = ["", "x", "xy", "hello", "12", "abc def"]
 
@@ -373,8 +374,17 @@ class ProgGen:
     """env: transpile-time view {name: ('K', value) | ('M',)}; guarded=True keeps every program inside the guard of
     C03_env_fresh_partial (no write to a known name inside a block that may be skipped or repeated, ...)"""
 
-    def __init__(self, rng, guarded, maxdepth, tuples=False):
+    def __init__(self, rng, guarded, maxdepth, tuples=False, flow=False, collide=False):
+        """flow=True: writes to names with a known transpile-time value are allowed inside blocks (the flow guard of
+        Lang/ConstFlow.v); the generator keeps a set of names whose tracked constant may be stale (taint) and never
+        folds those - the model's flow_ok decides in the end.  collide=True: for-loop variables may be named like a
+        tracked constant."""
         self.rng, self.guarded, self.maxdepth, self.tuples = rng, guarded, maxdepth, tuples
+        self.flow, self.collide = flow, collide
+        self.taint = set()
+        self.noflow = 0
+        self.pending = None
+        self.readonly = []
         self.forbid = []
         self.main_bound = None
         self.loop_bound = []
@@ -383,16 +393,65 @@ class ProgGen:
         # inside a loop (while / for / the main loop) only names that exist before it are written: a name first bound
         # inside a loop body becomes a C++ local of that body, re-initialised on every pass (variable scoping is
         # C01's business, not constant folding)
+        if x in self.readonly:
+            return False          # a for-loop variable: assigning it in the body changes the C++ loop counter (C01's business)
         if self.main_bound is not None and x not in self.main_bound:
             return False
         if any(x not in b for b in self.loop_bound):
             return False
-        if not self.guarded:
+        if not self.guarded or (self.flow and not self.noflow):
             return True
         return not any(x in f for f in self.forbid)
 
     def known(self, env, names):
-        return [x for x in names if env.get(x, (None,))[0] == "K"]
+        return [x for x in names if env.get(x, (None,))[0] == "K" and x not in self.taint]
+
+    @staticmethod
+    def reads(b):
+        """names the transpiler evaluates at transpile time in block b (fold sites and right-hand sides)"""
+        out = set()
+        for st in b:
+            k = st[0]
+            if k in ("assign", "append", "remove"):
+                out |= set(NAME_RE.findall(st[2]))
+            elif k in ("len", "flash"):
+                out.add(st[1])
+            elif k == "glyph":
+                for r in st[1]:
+                    out |= set(NAME_RE.findall(r))
+            elif k == "tuple":
+                for r in st[2]:
+                    out |= set(NAME_RE.findall(r))
+            elif k == "if":
+                out |= ProgGen.reads(st[1]) | ProgGen.reads(st[2])
+            elif k in ("while", "main"):
+                out |= ProgGen.reads(st[1])
+            elif k == "for":
+                out |= ProgGen.reads(st[2])
+        return out
+
+    def loop_body(self, env, mk_child, depth, n):
+        """flow mode: a loop body may write tracked constants as long as nothing in the body folds them (on the second
+        pass every read in the body comes after the write)"""
+        entry_known = {x for x, b in env.items() if b[0] == "K"}
+        if not self.flow or self.noflow:
+            return self.block(mk_child(), depth + 1, n)
+        snap = {x: list(b[1]) for x, b in env.items() if b[0] == "K" and isinstance(b[1], list)}
+        t0 = set(self.taint)
+        for _ in range(4):
+            a = self.block(mk_child(), depth + 1, n)
+            w = {x for st in a[0] for x in self.written(st)} & entry_known
+            if not (w & self.reads(a[0])):
+                self.taint = t0 | w
+                return a
+            for x, v in snap.items():
+                env[x][1][:] = v
+            self.taint = set(t0)
+        self.noflow += 1
+        try:
+            return self.block(mk_child(), depth + 1, n)
+        finally:
+            self.noflow -= 1
 
     def levels(self, env):
         """known int names whose value can be a flash-pattern entry (0..255: what analogWrite takes unclamped)"""
@@ -424,6 +483,9 @@ class ProgGen:
         if r < 0.8:
             return f"{rng.choice(ks)} + {rng.choice(STRS)!r}"
         ki = self.known(env, INT_N)
+        if self.flow or self.collide:
+            # a binder (for-loop variable) or a run-time int: never a constant inside the string
+            ki = ki + [x for x in self.bound(env, INT_N + LOOPV) if env[x][0] == "M"] * 2
         return f"f\"n{{{rng.choice(ki)}}}\"" if ki else repr(rng.choice(STRS))
 
     def evalk(self, env, src):
@@ -482,12 +544,14 @@ class ProgGen:
                     if b[0] == "K" and not (0 <= b[1] <= 999):
                         continue
                     env[x] = b
+                    self.taint.discard(x)
                     return ("assign", x, e)
             elif r < 0.30:
                 x = rng.choice(STR_N)
                 if self.writable(env, x):
                     e = self.str_expr(env)
                     env[x] = self.evalk(env, e)
+                    self.taint.discard(x)
                     return ("assign", x, e)
             elif r < 0.38:
                 x = rng.choice(LIST_N)
@@ -502,7 +566,7 @@ class ProgGen:
                     env[x] = ("M",)
                     return ("rt", x, rng.choice(sorted(RT_PINS)))
             elif r < 0.58:
-                ls = self.bound(env, LIST_N)
+                ls = [x for x in self.bound(env, LIST_N) if x not in self.taint]
                 if ls:
                     x = rng.choice(ls)
                     if not self.writable(env, x):
@@ -516,7 +580,7 @@ class ProgGen:
                         env[x][1].append(v[1] if v[0] == "K" else None)
                     return ("append", x, e)
             elif r < 0.66:
-                ls = [x for x in self.bound(env, LIST_N)]
+                ls = [x for x in self.bound(env, LIST_N) if x not in self.taint]
                 if ls:
                     x = rng.choice(ls)
                     if not self.writable(env, x):
@@ -533,7 +597,7 @@ class ProgGen:
                     elif env[x][0] == "M" and not self.guarded:
                         return ("remove", x, str(rng.randint(0, 3)))
             elif r < 0.80:
-                xs = self.bound(env, STR_N + LIST_N)
+                xs = [x for x in self.bound(env, STR_N + LIST_N) if x not in self.taint]
                 if xs:
                     return ("len", rng.choice(xs))
             elif r < 0.84:
@@ -555,6 +619,8 @@ class ProgGen:
                 self.forbid.append({x for x, b in env.items() if b[0] == "K"})
                 try:
                     if kind == "if":
+                        if self.flow and not self.noflow:
+                            return self.if_chain(env, depth)
                         a = self.block(self.child(env), depth + 1, rng.randint(1, 3))
                         b = self.block(self.child(env), depth + 1, rng.randint(1, 2)) if rng.random() < 0.4 else ([], {})
                         self.promote(env, a[1]); self.promote(env, b[1])
@@ -562,21 +628,43 @@ class ProgGen:
                     if kind == "while":
                         self.loop_bound.append(set(env))
                         try:
-                            a = self.block(self.child(env), depth + 1, rng.randint(1, 3))
+                            a = self.loop_body(env, lambda: self.child(env), depth, rng.randint(1, 3))
                         finally:
                             self.loop_bound.pop()
                         self.promote(env, a[1])
                         return ("while", a[0])
                     lv = LOOPV[depth]
-                    ch = self.child(env)
-                    ch[lv] = ("M",)
+                    pend = None
+                    cl = [x for x in self.bound(env, INT_N) if self.writable(env, x) and x not in self.taint]
+                    if (self.collide or (self.flow and not self.noflow)) and rng.random() < 0.45 and cl:
+                        big = [x for x in cl if env[x][0] == "K" and env[x][1] >= 10]
+                        lv = rng.choice(big or cl)     # a binder named like a tracked constant
+                        v = rng.randint(10, 31)
+                        pend = ("assign", lv, str(v))
+
+                    def mk():
+                        c = self.child(env)
+                        c[lv] = ("M",)
+                        return c
                     self.loop_bound.append(set(env))
+                    self.readonly.append(lv)
                     try:
-                        a = self.block(ch, depth + 1, rng.randint(1, 3))
+                        a = self.loop_body(env, mk, depth, rng.randint(1, 3))
                     finally:
                         self.loop_bound.pop()
+                        self.readonly.pop()
                     a[1].pop(lv, None)
                     self.promote(env, a[1])
+                    if pend:
+                        # the probe: a string built from the binder, and its length (a run-time value: the binder is
+                        # not the module constant of the same name)
+                        ms = [x for x in self.bound(env, STR_N) if env[x][0] == "M" and self.writable(env, x)]
+                        if ms:
+                            sx = rng.choice(ms)
+                            a[0].extend([("assign", sx, f"f\"n{{{lv}}}\""), ("len", sx)])
+                        self.pending = pend
+                        env[lv] = ("K", int(pend[2]))
+                        self.taint.discard(lv)
                     return ("for", lv, a[0])
                 finally:
                     self.forbid.pop()
@@ -585,6 +673,59 @@ class ProgGen:
     def child(self, env):
         # a copy of the dict: same bindings, the same list objects
         return dict(env)
+
+    def if_chain(self, env, depth):
+        """flow mode: if / elif / else.  Every branch is parsed from its own copy of the snapshot: an earlier branch
+        may re-assign a tracked constant, the later siblings fold it - with the value from BEFORE the if (this is
+        where a shared branch environment shows); lists mutated in an earlier branch are stale in the later ones (the
+        store is shared) and are not folded there; after the chain everything written in it is stale."""
+        rng = self.rng
+        entry_known = {x for x, b in env.items() if b[0] == "K"}
+        t0 = set(self.taint)
+        n_br = rng.choice([1, 2, 2, 3])
+        has_else = rng.random() < (0.75 if n_br > 1 else 0.5)
+        bodies, assigned, mutated, wall = [], set(), set(), set()
+        for j in range(n_br + (1 if has_else else 0)):
+            self.taint = t0 | mutated
+            ch = self.child(env)
+            blk = self.block(ch, depth + 1, rng.randint(1, 3))[0]
+            if j + 1 < n_br + (1 if has_else else 0) and rng.random() < 0.6:
+                # "adding assignments in other branches": re-assign a tracked constant in a branch that has later siblings
+                cands = [x for x in self.known(env, STR_N + INT_N) if self.writable(env, x)]
+                if cands:
+                    x = rng.choice(cands)
+                    blk.insert(rng.randint(0, len(blk)), ("assign", x, repr(rng.choice(STRS) + "!") if x in STR_N else str(rng.randint(10, 31))))
+            # the sibling fold: look at what earlier branches assigned
+            extra = []
+            for x in sorted(assigned):
+                if x in self.taint or env.get(x, (None,))[0] != "K":
+                    continue
+                if x in STR_N and rng.random() < 0.7:
+                    extra.append(("len", x))
+                elif x in INT_N and rng.random() < 0.5:
+                    extra.append(("glyph", [x] + [str(rng.randint(0, 31)) for _ in range(7)]))
+            pos = rng.randint(0, len(blk))
+            wr_before = {x for st in blk[:pos] for x in self.written(st)}
+            extra = [e for e in extra if not (self.reads([e]) & wr_before)]
+            blk = blk[:pos] + extra + blk[pos:]
+            bodies.append(blk)
+            for st in blk:
+                if st[0] in ("assign", "aug", "tuple", "rt"):
+                    assigned |= self.written(st) & entry_known
+                w = self.written(st)
+                wall |= w
+                if st[0] in ("append", "remove") or st[0] in ("if", "while", "for"):
+                    mutated |= w & entry_known & set(LIST_N)
+            for x in ch:
+                if x not in env:
+                    env[x] = ("M",)
+        self.taint = t0 | (wall & entry_known)
+        # nest: if A elif B else C  ==  SIf A [SIf B C]
+        tail = bodies.pop() if has_else else []
+        node = None
+        for blk in reversed(bodies):
+            node = ("if", blk, tail if node is None else [node]) if node is None else ("if", blk, [node], "elif")
+        return node
 
     def promote(self, env, child):
         for x in child:
@@ -612,9 +753,12 @@ class ProgGen:
             s = self.stmt(env, depth)
             if s:
                 out.append(s)
+                if self.pending:
+                    out.append(self.pending)
+                    self.pending = None
                 if s[0] in ("if", "while", "for") and self.rng.random() < 0.7:
                     # look at what the block wrote: that is where a stale environment shows
-                    ws = sorted(x for x in self.written(s) if x in env and x in STR_N + LIST_N)
+                    ws = sorted(x for x in self.written(s) if x in env and x in STR_N + LIST_N and x not in self.taint)
                     if ws:
                         out.append(("len", self.rng.choice(ws)))
                     ws = sorted(x for x in self.written(s) if x in env and x in INT_N + STR_N)
@@ -689,7 +833,7 @@ class ProgGen:
                 if unknown:
                     pre.append(("assign", x, f"{m} + {rng.randint(0, 3)}")); env[x] = ("M",)
                 else:
-                    v = rng.randint(0, 9); pre.append(("assign", x, str(v))); env[x] = ("K", v)
+                    v = rng.choice([rng.randint(0, 9), rng.randint(0, 9), rng.randint(10, 31)]); pre.append(("assign", x, str(v))); env[x] = ("K", v)
             elif x in STR_N:
                 if unknown:
                     pre.append(("assign", x, f"str({m})")); env[x] = ("M",)
@@ -709,11 +853,155 @@ class ProgGen:
             # the sketch's main loop `while True:` - parsed by parse() itself, in the top-level context
             self.forbid.append({x for x, b in env.items() if b[0] == "K"})
             self.main_bound = set(env)
-            mb, _ = self.block(self.child(env), 1, rng.randint(2, 5))
+            mb, _ = self.loop_body(env, lambda: self.child(env), 0, rng.randint(2, 5))
             self.main_bound = None
             self.forbid.pop()
             prog.append(("main", mb))
         return prog
+
+
+CALL_STRS = ["", "z", "hi", "a longer caption", "0123456789abcdef"]
+
+
+def gen_def_program(rng, guarded=True):
+    """module constants; def f(formal arguments - mostly named like a tracked module constant of the same type): a body
+    with fold sites on the arguments (len(arg): a run-time value there), on module constants (folded from the
+    environment of the def) and on locals; module statements between the def and the calls (some re-assign a constant
+    the body folds: the def-time environment is stale then - outside the guard, finding F-C03-def-time-global); one or
+    two calls with arguments that differ from the same-named constants; trailing observations."""
+    g = ProgGen(rng, True, 1, flow=True)
+    env, pre = {}, []
+    m = rng.choice(RT_N)
+    pre.append(("rt", m, rng.choice(sorted(RT_PINS)))); env[m] = ("M",)
+    names = rng.sample(STR_N, rng.randint(1, 3)) + rng.sample(INT_N, rng.randint(1, 2)) + rng.sample(LIST_N, rng.randint(0, 1))
+    rng.shuffle(names)
+    for x in names:
+        if x in INT_N:
+            v = rng.randint(0, 31); pre.append(("assign", x, str(v))); env[x] = ("K", v)
+        elif x in STR_N:
+            v = rng.choice(STRS); pre.append(("assign", x, repr(v))); env[x] = ("K", v)
+        else:
+            v = [rng.randint(0, 1) for _ in range(rng.randint(1, 4))]; pre.append(("assign", x, repr(v))); env[x] = ("K", v)
+    if rng.random() < 0.5:
+        pre += g.block(env, 0, rng.randint(1, 2))[0]
+    kstr, kint, klist = g.known(env, STR_N), g.known(env, INT_N), g.known(env, LIST_N)
+    params = []
+    for _ in range(rng.choice([1, 1, 2])):
+        taken = [q for q, _ in params]
+        same = [x for x in kstr + kint if x not in taken]
+        if same and rng.random() < 0.75:
+            x = rng.choice(same)
+        else:
+            x = rng.choice([c for c in STR_N + INT_N if c not in taken])
+        params.append((x, "str" if x in STR_N else "int"))
+    pn = [q for q, _ in params]
+    sp, ip = [q for q, t in params if t == "str"], [q for q, t in params if t == "int"]
+
+    def simple():
+        for _ in range(20):
+            r = rng.random()
+            if r < 0.30 and sp:
+                return [("len", rng.choice(sp))]
+            if r < 0.40:
+                return [("val", rng.choice(pn))]
+            if r < 0.52 and [x for x in kstr if x not in pn]:
+                return [("len", rng.choice([x for x in kstr if x not in pn]))]
+            if r < 0.60 and [x for x in klist if x not in pn]:
+                return [("flash", rng.choice([x for x in klist if x not in pn]))]
+            if r < 0.70:
+                pool = [str(rng.randint(0, 31))] * 2 + [x for x in kint if x not in pn]
+                if not guarded and ip and rng.random() < 0.3:
+                    pool += ip
+                return [("glyph", [rng.choice(pool) for _ in range(8)])]
+            if r < 0.85 and sp:
+                q = rng.choice(sp)
+                return [("assign", "vx", rng.choice([f"{q} + 'x'", f"{q}", repr(rng.choice(STRS))])), ("len", "vx")]
+            if r < 0.92 and ip:
+                return [("assign", "vy", f"{rng.choice(ip)} + {rng.randint(0, 3)}"), ("val", "vy")]
+        return [("val", rng.choice(pn))]
+    body = []
+    for _ in range(rng.randint(2, 4)):
+        if rng.random() < 0.2:
+            a = simple()
+            b = simple() if rng.random() < 0.5 else []
+            a = [st for st in a if st[0] != "assign"] or [("val", pn[0])]
+            b = [st for st in b if st[0] != "assign"]
+            a = [st for st in a if st[1] not in LOCAL_N] or [("val", pn[0])]
+            b = [st for st in b if st[1] not in LOCAL_N]
+            body.append(("if", a, b))
+        else:
+            body += simple()
+    if sp and not any(st[0] == "len" and st[1] in sp for st in body):
+        body.insert(rng.randint(0, len(body)), ("len", rng.choice(sp)))
+    fname = "fn"
+    prog = pre + [("def", fname, params, body)]
+
+    def mid_stmt():
+        r = rng.random()
+        if r < 0.30 and kstr:
+            x = rng.choice(kstr); v = rng.choice(STRS) + "q"
+            env[x] = ("K", v)
+            return ("assign", x, repr(v))
+        if r < 0.45 and kint:
+            x = rng.choice(kint); v = rng.randint(0, 31)
+            env[x] = ("K", v)
+            return ("assign", x, str(v))
+        if r < 0.75 and kstr + kint:
+            return ("val", rng.choice(kstr + kint))
+        if kstr:
+            return ("len", rng.choice(kstr))
+        return ("val", m)
+    for _ in range(rng.choice([1, 2, 2])):
+        for _ in range(rng.choice([0, 0, 1, 2])):
+            prog.append(mid_stmt())
+        args = []
+        for q, t in params:
+            same_t = [x for x in (kstr if t == "str" else kint)]
+            if same_t and rng.random() < 0.25:
+                args.append(rng.choice(same_t))
+            else:
+                args.append(repr(rng.choice(CALL_STRS)) if t == "str" else str(rng.randint(0, 31)))
+        prog.append(("call", fname, args, [env[a][1] if a in env else ast.literal_eval(a) for a in args]))
+    for _ in range(rng.choice([0, 1, 2])):
+        prog.append(mid_stmt())
+    return prog
+
+
+def def_cases(p, call_orcs):
+    """the model cases (kind 2) of a program with a def: one per call"""
+    out = []
+    idx = next((i for i, st in enumerate(p) if st[0] == "def"), None)
+    if idx is None:
+        return out
+    _, _, params, body = p[idx]
+    prefix = [st for st in p[:idx] if st[0] not in ("def", "call")]
+    mid, k = [], 0
+    for st in p[idx + 1:]:
+        if st[0] == "call":
+            if k < len(call_orcs):
+                out.append([2, wire_prog(prefix), [q for q, _ in params], wire_prog(body), wire_prog(mid),
+                            [W.enc_val(v) for v in st[3]], call_orcs[k]])
+            k += 1
+        elif st[0] != "def":
+            mid.append(st)
+    return out
+
+
+def has_collision(p):
+    """a for-loop variable named like a module variable: C++ scopes it to the loop, Python rebinds the module variable
+    (variable scoping is C01's business): only the folded constants are compared for such a program"""
+    for st in p:
+        if st[0] == "for" and (st[1] not in LOOPV or has_collision(st[2])):
+            return True
+        if st[0] == "if" and (has_collision(st[1]) or has_collision(st[2])):
+            return True
+        if st[0] in ("while", "main") and has_collision(st[1]):
+            return True
+    return False
+
+
+def has_def(p):
+    return any(st[0] == "def" for st in p)
 
 
 def wire_prog(p):
@@ -787,9 +1075,23 @@ def render_prog(p, sfx, header=True):
                 lines.append(f"{pad}{c} = digital_read(4)")
                 lines.append(f"{pad}if {c} == 1:")
                 block(s[1], lvl + 1)
-                if s[2]:
+                cur = s
+                while True:
+                    rest = cur[2]
+                    if len(cur) > 3 and len(rest) == 1 and rest[0][0] == "if":
+                        cur = rest[0]
+                        lines.append(f"{pad}elif digital_read(4) == 1:")
+                        block(cur[1], lvl + 1)
+                        continue
+                    break
+                if rest:
                     lines.append(f"{pad}else:")
-                    block(s[2], lvl + 1)
+                    block(rest, lvl + 1)
+            elif k == "def":
+                lines.append(f"{pad}def {s[1]}_{sfx}(" + ", ".join(f"{rn(x)}: {t}" for x, t in s[2]) + "):")
+                block(s[3], lvl + 1)
+            elif k == "call":
+                lines.append(f"{pad}{s[1]}_{sfx}(" + ", ".join(rn(a) for a in s[2]) + ")")
             elif k == "while":
                 cid[0] += 1
                 n, kk = f"n{cid[0]}_{sfx}", f"k{cid[0]}_{sfx}"
@@ -812,17 +1114,30 @@ def render_prog(p, sfx, header=True):
     return (HEADER if header else "") + "\n".join(lines) + "\n"
 
 
+WALK_CALLS = {}
+
+
 def walk_oracle(p, rng, budget=60):
     """draw the run-time decisions of one execution: -> (model oracle, digital reads pin 4, analog reads pin 14)"""
     orc, dr, ar = [], [], []
     left = [budget]
+    defs, calls = {}, []
 
     def block(b):
+        nonlocal orc
         for s in b:
             if left[0] <= 0:
                 return
             left[0] -= 1
-            if s[0] == "if":
+            if s[0] == "def":
+                defs[s[1]] = s[3]
+            elif s[0] == "call":
+                # the model's oracle for this call: the decisions of the module statements so far, then the body's
+                main, orc = orc, []
+                block(defs[s[1]])
+                calls.append(main + orc)
+                orc = main
+            elif s[0] == "if":
                 d = rng.choice([0, 1])
                 orc.append(d); dr.append(d)
                 block(s[1] if d else s[2])
@@ -839,6 +1154,7 @@ def walk_oracle(p, rng, budget=60):
 
     loops = [0]
     block(p)
+    WALK_CALLS[id(p)] = calls
     return orc, dr, ar, left[0] > 0, loops[0]
 
 
@@ -885,6 +1201,22 @@ def model_obs(w):
     return out
 
 
+def splice(main, calls):
+    """main: model outputs of the module statements (Some [vals]); calls: per call (outputs before the call, outputs of
+    the call) -> the outputs of the whole script, or [] (undefined) when a piece is undefined"""
+    if not main or any(not c for c in calls):
+        return []
+    out, pos = [], 0
+    vals = list(main[0])
+    for before, during in calls:
+        n = len(before)
+        if n < pos or n > len(vals):
+            return []
+        out += vals[pos:n] + list(during)
+        pos = n
+    return [out + vals[pos:]]
+
+
 def model_static(w):
     out = []
     for o in w:
@@ -911,6 +1243,9 @@ WITNESSES = {
         "prog": [("assign", "vp", "[1, 0]"), ("rt", "vm", 19), ("remove", "vp", "vm"), ("flash", "vp")], "dr": [], "ar": []},
     "F-C03-stale-glyph-row": {
         "prog": [("assign", "va", "1"), ("if", [("assign", "va", "2")], []), ("glyph", ["va", "0", "0", "0", "0", "0", "0", "0"])], "dr": [1], "ar": []},
+    "F-C03-def-time-global": {
+        "prog": [("assign", "vs", "'ab'"), ("def", "fn", [("va", "int")], [("len", "vs")]), ("assign", "vs", "'abcdef'"),
+                 ("call", "fn", ["0"], [0])], "dr": [], "ar": []},
     "F-C03-unary-plus-identity": {
         "prog": [("assign", "vs", "f\"{+True}\""), ("len", "vs")], "dr": [], "ar": []},
 }
@@ -1011,7 +1346,15 @@ def layer_b(ctx, stats):
     progs, guarded = [], []
     for i in range(n):
         g = (i % 5) != 4                       # 80 % inside the guard (these feed the oracle), 20 % anything
-        progs.append(ProgGen(rng, g, 3 if thorough and i % 3 == 0 else 2).program(main=(i % 4 == 1)))
+        # every second guarded program is generated for the flow guard (writes to tracked constants inside branches and
+        # loop bodies, if / elif / else chains with sibling folds); unguarded ones may name a for-loop variable like a
+        # tracked constant
+        progs.append(ProgGen(rng, g, 3 if thorough and i % 3 == 0 else 2, flow=(g and i % 2 == 0), collide=not g).program(main=(i % 4 == 1)))
+        guarded.append(g)
+    # function definitions: formal arguments named like tracked module constants, calls with other values
+    for i in range(n // 4):
+        g = (i % 6) != 5
+        progs.append(gen_def_program(rng, g))
         guarded.append(g)
     # tuple assignment (not in the Coq model: no correspondence, only the oracle, on programs the generator keeps
     # inside the guard by construction)
@@ -1036,9 +1379,13 @@ def layer_b(ctx, stats):
     real, scripts, n_sk = run_real(progs, drs, ars, batch=10 if thorough else 8, loops=loops)
     modelled = [i for i, p in enumerate(progs) if not has_tuple(p)]
     model = [None] * len(progs)
+    dmodel = {}
     if ctx.exe:
         for i, m in zip(modelled, ctx.model([[1, wire_prog(progs[i]), orcs[i]] for i in modelled])):
             model[i] = m
+        dcases = [(i, c) for i in modelled if has_def(progs[i]) for c in def_cases(progs[i], WALK_CALLS.get(id(progs[i]), []))]
+        for (i, _), m in zip(dcases, ctx.model([c for _, c in dcases]) if dcases else []):
+            dmodel.setdefault(i, []).append(m)
     distinct = set()
     samples = []
     for idx, (p, g, o, r, m, s) in enumerate(zip(progs, guarded, orcs, real, model, scripts)):
@@ -1052,15 +1399,32 @@ def layer_b(ctx, stats):
             if m == [2]:
                 ctx.disagree("wire: the model could not decode the program", body, m, None)
                 continue
-            macc, mfresh, mfw, mpy, mstatic, msplit = m
+            macc, mfresh, mfw, mpy, mstatic, msplit, mflowp = m
             msplit_ok, msk, mglobals, mtops = msplit
-            fresh = g and bool(mfresh) and bool(msplit_ok)
-            if g and not mfresh:
-                stats["guarded-but-not-fresh"] += 1
-            if mfresh and not msplit_ok:
-                stats["fresh-but-outside-split-guard"] += 1
+            mflow, mhoist = bool(mflowp[0]), bool(mflowp[1])
+            # inside the guard of C03_global_split_partial (is_fresh + hoisting side conditions), or inside the flow guard
+            # of C03_flow_partial together with the same hoisting side conditions (the split theorem itself is proved
+            # for is_fresh programs only - see "unmodelled")
+            fresh = g and ((bool(mfresh) and bool(msplit_ok)) or (mflow and mhoist))
+            stats["guard:is_fresh" if mfresh else ("guard:flow_ok only" if mflow else "guard:outside")] += 1
+            if mfresh and not mflow:
+                stats["guard:is_fresh but not flow_ok"] += 1
+            if g and not (mfresh or mflow):
+                stats["guarded-but-outside-both-guards"] += 1
+            if (mfresh or mflow) and not mhoist:
+                stats["inside-env-guard-but-outside-split-guard"] += 1
+            dm = dmodel.get(idx, [])
+            if has_def(p):
+                if any(d == [2] for d in dm):
+                    ctx.disagree("wire: the model could not decode a call case", body, dm, None)
+                    continue
+                for d in dm:
+                    stats["def:call inside def_ok" if d[1] else "def:call outside def_ok"] += 1
+                fresh = fresh and bool(dm) and all(d[1] for d in dm)
             # accepted / rejected
             iacc = r["static"]["status"] == "ok"
+            if has_def(p) and dm:
+                macc = bool(macc) and all(d[0] for d in dm)
             if bool(macc) != iacc:
                 ctx.disagree("constant environment: accepted by one side only", body, "accepted" if macc else "rejected", r["static"])
             elif iacc:
@@ -1069,6 +1433,14 @@ def layer_b(ctx, stats):
                                  model_static(mstatic), r["static"]["obs"])
                 else:
                     stats["tie:static-equal"] += 1
+                if has_def(p) and dm:
+                    fo = r["static"].get("funcs", {}).get("fn_0")
+                    if fo is None or model_static(dm[0][4]) != impl_static(fo):
+                        ctx.disagree("function body: folded constants differ (model residual of the body vs IR of the real parser) - a formal "
+                                     "argument must be a run-time value in the body whatever module constant has its name", body,
+                                     model_static(dm[0][4]), fo)
+                    else:
+                        stats["tie:def-static-equal"] += 1
                 # module level: which first assignments became static initialisers, which stayed in setup()
                 mg = [[C.wstr(x[0]), x[1]] for x in mglobals]
                 mt = [C.wstr(x) for x in mtops]
@@ -1087,13 +1459,19 @@ def layer_b(ctx, stats):
                 else:
                     stats["tie:split-equal"] += 1
                 if r["status"] == "ran":
-                    mp, mf = model_obs(mpy), model_obs(msk if msplit_ok else mfw)
+                    msk_ok = msplit_ok or (mflow and mhoist)
+                    mpy2, mfw2 = mpy, (msk if msk_ok else mfw)
+                    if has_def(p):
+                        mpy2, mfw2 = splice(mpy, [d[3] for d in dm]), splice(msk if msk_ok else mfw, [d[2] for d in dm])
+                    mp, mf = model_obs(mpy2), model_obs(mfw2)
                     if mp is not None:
                         if mp != r["py"]["obs"]:
                             ctx.disagree("reference run-time semantics of the model differs from CPython", body, mp, r["py"]["obs"])
                         else:
                             stats["tie:py-equal"] += 1
-                    if mf is not None:
+                    if mf is not None and has_collision(p):
+                        stats["tie:fw-skipped (loop variable named like a module variable)"] += 1
+                    elif mf is not None:
                         if mf != r["fw"]:
                             ctx.disagree("firmware outputs of the model differ from the real firmware", body, mf, r["fw"])
                         else:
@@ -1137,15 +1515,17 @@ def run(ctx: C.Ctx):
         "distinct_nontrivial": d_a + d_b,
         "programs": n_b,
         "sketches_compiled": n_sk,
-        "rule": "A: boundary expressions (every node kind _eval_const looks at, each operator with int/float/bool/str operands, error sources, hostile forms) x 3-5 environments (known int/float/bool/str/list/tuple, a marker, an unbound name), then seeded random expressions (harness/pyast_wire.gen_expr, depth 1-4) - each through the extracted model and the real _eval_const/_expr_has_name/_to_c_expr, a sample also through parse() at the blink/backlight/glyph/sleep call sites with the environment set up by assignments; non-trivial (A) = distinct (expression, environment) on which the real evaluator returned a value inside the guard and the CPython comparison ran. B: seeded programs (assign / augmented assign / run-time read / append / remove / len(name) / flash_pattern(name) / lcd.glyph(0, [rows]) / mon.write(name) = the run-time value of a variable; at module level a 'retune' pattern: a constant is re-assigned and then used in the FIRST assignment of another module-level name, which is then printed - the static-initialiser vs run-time-assignment split; a fifth of the programs additionally use tuple assignment, oracle only) under if, while, for and - every fourth program - the sketch's main loop `while True:` run 1-3 passes; 80 % generated inside the guard) with one seeded execution path each (branches taken or not, loops 0-3 times): real parse() IR vs model residual (folded constants; which module-level first assignments became static initialisers and which stayed in setup()), CPython run vs model reference semantics, firmware run (batched sketches, g++, mock core) vs model firmware outputs; non-trivial (B) = distinct program inside the guard that ran on both sides with >= 2 observations.",
+        "rule": "A: boundary expressions (every node kind _eval_const looks at, each operator with int/float/bool/str operands, error sources, hostile forms) x 3-5 environments (known int/float/bool/str/list/tuple, a marker, an unbound name), then seeded random expressions (harness/pyast_wire.gen_expr, depth 1-4) - each through the extracted model and the real _eval_const/_expr_has_name/_to_c_expr, a sample also through parse() at the blink/backlight/glyph/sleep call sites with the environment set up by assignments; non-trivial (A) = distinct (expression, environment) on which the real evaluator returned a value inside the guard and the CPython comparison ran. B: seeded programs (assign / augmented assign / run-time read / append / remove / len(name) / flash_pattern(name) / lcd.glyph(0, [rows]) / mon.write(name) = the run-time value of a variable; at module level a 'retune' pattern: a constant is re-assigned and then used in the FIRST assignment of another module-level name, which is then printed - the static-initialiser vs run-time-assignment split; a fifth of the programs additionally use tuple assignment, oracle only) under if, while, for and - every fourth program - the sketch's main loop `while True:` run 1-3 passes; 80 % generated inside the guard; every second guarded program is generated for the FLOW guard: tracked constants are re-assigned / appended inside branches and loop bodies, if / elif / else chains of 1-3 branches where 60 % of the branches with later siblings re-assign a tracked constant and the later siblings fold it (len / glyph row) from the snapshot, loop bodies that write tracked constants nothing folds, for-loop variables named like a tracked module constant followed by a re-assignment with a probe (a string formatted from the binder, and its length) in the body; a further quarter of the programs define a function whose formal arguments are mostly named like tracked module constants of the same type, with len(argument) / glyph / flash_pattern / len(module constant) / locals in the body, module statements between the def and 1-2 calls (some re-assigning a constant the body folds), arguments that differ from the same-named constants) with one seeded execution path each (branches taken or not, loops 0-3 times): real parse() IR vs model residual (folded constants; which module-level first assignments became static initialisers and which stayed in setup()), CPython run vs model reference semantics, firmware run (batched sketches, g++, mock core) vs model firmware outputs; non-trivial (B) = distinct program inside the guard that ran on both sides with >= 2 observations.",
         "samples": [{"expr": x} for x in s_a] + [{"program": x} for x in s_b],
         "distribution": dict(sorted(stats.items())),
-        "guard": "A: in_guard (no one-argument max/min; unary plus only on int/float operands - decided by CPython in the oracle), no variable named like a builtin of _SAFE_NAME_REFERENCES. B: is_fresh (ConstEnv.tblock's ghost flag): no assignment / append / remove to a name with a known transpile-time value inside an if / while / for body, remove only of a known value that is present, append only of a known value - outside: findings F-C03-*; split_ok = is_fresh and the hoisting side conditions of C03_global_split_partial (always true for generated programs: no for-loop variable is assigned elsewhere)",
+        "guard": "B (wider, this round): flow_ok (ConstFlow.cblock's flag) - at every fold site the transpiler baked in exactly what the flow-sensitive ghost environment justifies (branches start from the bindings before the if with a private store; names written in a branch / loop body are unknown afterwards and inside the loop) - and def_ok for every call of a defined function (body justified by the def-time bindings no module statement before the call writes, formal arguments unknown); a program goes to the oracle when the extracted model says is_fresh or flow_ok, the hoisting side conditions hold and every call is inside def_ok. A: in_guard (no one-argument max/min; unary plus only on int/float operands - decided by CPython in the oracle), no variable named like a builtin of _SAFE_NAME_REFERENCES. B: is_fresh (ConstEnv.tblock's ghost flag): no assignment / append / remove to a name with a known transpile-time value inside an if / while / for body, remove only of a known value that is present, append only of a known value - outside: findings F-C03-*; split_ok = is_fresh and the hoisting side conditions of C03_global_split_partial (always true for generated programs: no for-loop variable is assigned elsewhere)",
         "unmodelled": ["IEEE specials, float results that are not exactly representable are compared only CPython-vs-implementation (exact), not against the rational model",
                        "sensor model names (ast.literal_eval fallback), pin folding in device constructors (same _resolve pattern; only blink/backlight/glyph/sleep sites are run)",
                        "list aliasing between variables (b = a), flash_pattern / glyph with an inline literal containing names (ast.literal_eval path) in the environment model",
                        "tuple assignment is not in the Coq model: programs using it (module level, all-new or all-declared int / str names) only go through the firmware-vs-CPython oracle",
-                       "try / def bodies (child contexts like if / while / for), elif chains (modelled as an if nested in the else branch, not generated), names promoted out of blocks are not listed among the model's globals",
+                       "try / except bodies (child contexts like if branches), functions that call functions / recursion / return values feeding fold sites / list arguments (the def model is: call-free body, str / int arguments, module-level def and calls), names promoted out of blocks are not listed among the model's globals",
+                       "the module-level hoisting theorem (C03_global_split_partial) is proved under is_fresh; for programs that are only inside the flow guard the hoisting half is covered by the correspondence (globals / top-level assignments) and the firmware oracle, not by a theorem",
+                       "a for-loop variable named like a module variable that is assigned inside the loop body or read after the loop without re-assignment (C++ scopes the loop variable: C01's business) - generated only with a re-assignment after the loop; the model-vs-firmware tie is skipped for those programs",
                        "str(float) / float(str) / complex results: OutOfModel in PySem (skipped, counted)"],
         "trusted_base": C.COMMON_TRUSTED + ["harness/gen/safecasts.py (operator / cast / safe-name tables of parser.py)",
                                             "Lang/PySem.v as the meaning of Python expressions (validated against CPython by harness/pysem_check.py)",
